@@ -28,6 +28,7 @@ func runC02(w *World, r *Report) {
 	r.Rule("R-C02-4", "global cache: cacheGlobalTable only behind IsGlobalSingleton() == true and GlobalCacheEnabled; cachedGlobalTable only behind GlobalCacheEnabled", 8)
 
 	c02Declarations(w, r)
+	c02ClosureScanIgnoresDepth(w, r)
 
 	bp := w.pkg("internal/language/bytecode")
 	if bp == nil {
